@@ -6,7 +6,7 @@ from vmm.ref import searchlib as L
 
 ID = 'C01'
 RULE = ('Hypothesis panel x eligibility table x parameter object (all six constraint kinds, n_geos_max, n_pretest_max, data-aware '
-        'share/budget ranges), <=6 geos quick / <=8 thorough, both searches on fresh objects; every returned design checked '
+        'share/budget ranges), <=6 geos quick / <=8 thorough, both searches on fresh objects (plus the object-reuse histories of section 10 and a flavour with one large non-excludable geo and a volume-ratio tolerance); every returned design checked '
         'against the raw table and frame. Non-trivial = table present with >=2 distinct non-free row types among geos in the '
         'data and >=1 design returned; distinct by spec hash.')
 BUDGET = {'quick': 640, 'thorough': 16000}
@@ -15,9 +15,28 @@ ROUNDS = {'quick': 2, 'thorough': 4}
 ASSUMPTIONS = ['a ValueError from construction or search is an accepted outcome here (C09 decides crashes)']
 
 
+@st.composite
+def _big_fixed_geo(draw, big):
+  """A large geo that may not be excluded (fixed to control, or control-or-treatment) next to small ones, with a volume
+  ratio tolerance: the large geo does not fit beside a small treatment group, yet it has to be in every design."""
+  spec = draw(G.search_spec(max_geos=big, min_geos=4, constraint_p=0.15, allow_budget=False, allow_share=False, elig_style='free'))
+  panel, params = spec['panel'], spec['params']
+  n = len(panel['ids'])
+  panel['level'] = [32] + [draw(st.sampled_from([1, 2, 4, 4, 8])) for _ in range(n - 1)]
+  panel['early'], panel['flat'] = [1] * n, []
+  rows = [[panel['ids'][0]] + list(draw(st.sampled_from([(1, 0, 0), (1, 1, 0)])))]
+  rows += [[g] + list(draw(st.sampled_from([(1, 1, 1), (1, 1, 1), (0, 1, 1), (1, 0, 1), (1, 1, 0)]))) for g in panel['ids'][1:]]
+  spec['elig'] = dict(spec['elig'] or {'as_index': False, 'col_order': None, 'row_labels': None}, rows=rows, style='big-fixed-geo')
+  params['volume_ratio_tolerance'] = draw(st.sampled_from([0.25, 0.5, 1.0, 2.0]))
+  params['n_geos_max'] = None
+  spec['history'] = None
+  return spec
+
+
 def strategy(tier):
   big = 6 if tier == 'quick' else 8
-  return st.one_of(G.search_spec(max_geos=big, min_geos=2, constraint_p=0.4, flat=True),
+  return st.one_of(_big_fixed_geo(big),
+                   G.search_spec(max_geos=big, min_geos=2, constraint_p=0.4, flat=True),
                    G.search_spec(max_geos=big, min_geos=3, constraint_p=0.2, elig_style='fixed-heavy', flat=True),
                    G.search_spec(max_geos=big, min_geos=3, constraint_p=0.25, elig_style='mixed'),
                    G.search_spec(max_geos=big, min_geos=3, constraint_p=0.3, elig_style='fixed-heavy'))
